@@ -165,6 +165,21 @@ theorem encode_canonical_partial (s1 s2 : CompSys E) (h1 : s1.g.NamesDistinct) (
   have := encode_repaired_canonical (c := c) s1 s2 h1 h2 h
   rwa [hc1, hc2] at this
 
+/-- The repaired key is a function of content: two models that are `==` (statements pairwise `==`
+    with compartmental systems compared by content, everything else equal; name, description and
+    path free) and share the dataset have the same repaired pre-image — whatever the construction
+    order of their compartmental systems was. -/
+theorem encode_repaired_canonical_model {R : Type} (rd : R → Nat) (dumps : Json → String) (ds : Dataset R)
+    (m m' : Model E M) (h : m.SameContent m') :
+    encodeRepaired c rd dumps ds m = encodeRepaired c rd dumps ds m' := by
+  obtain ⟨hs, hrest⟩ := h
+  have hmap : m.statements.map Stmt.canon = m'.statements.map Stmt.canon :=
+    stmts_canon_eq _ _ hs Stmt.canon_eq_of_sameContent
+  have : m.canonical.blank = m'.canonical.blank := by
+    simp only [Model.canonical, Model.blank, Model.mk.injEq] at hrest ⊢
+    simp [hmap, hrest]
+  simp [encodeRepaired, encode, this]
+
 end
 
 /-- the repair removes the F4 witness -/
